@@ -206,7 +206,12 @@ class KeyEval:
                         try:
                             self.ev(a)
                         except Unsupported:
-                            pass  # (a message built with something this domain does not model: only its failures matter)
+                            # a message built with something this domain does not model: only its failures matter, and
+                            # the conversions between str and bytes are the calls that fail on particular keys - each
+                            # of them is evaluated on its own (an unmodelled one stops the analysis)
+                            for c in ast.walk(a):
+                                if isinstance(c, ast.Call) and isinstance(c.func, ast.Attribute) and c.func.attr in ("decode", "encode"):
+                                    self.ev(c)
             raise Raised(name, s)
         elif isinstance(s, ast.Try):
             try:
@@ -328,6 +333,12 @@ class KeyEval:
                 if not isinstance(i, int) or not (-len(v.tokens) <= i < len(v.tokens)):
                     raise Raised("IndexError", e)
                 return ("token", v.tokens[i], v.whole)
+            if isinstance(v, AStr) and isinstance(e.slice, ast.Slice):
+                # a slice of a key: some run of its characters / bytes - of the same classes, possibly cut anywhere (a
+                # slice of UTF-8 bytes can end inside a multi-byte character); its length is not followed
+                sl = AStr(v.tag, v.pat, ("lit", 0), v.scen)
+                sl.is_slice = True
+                return sl
             raise Unsupported("subscript %s at line %d" % (node_src(e), e.lineno))
         if isinstance(e, ast.Call):
             return self.call(e)
@@ -543,6 +554,9 @@ class KeyEval:
                         c = self.ev(e.args[0])
                         codec = c.lit if hasattr(c, "lit") else None
                     codec = (codec or "").lower().replace("-", "").replace("_", "")
+                    errs = e.args[1] if len(e.args) > 1 else next((k.value for k in e.keywords if k.arg == "errors"), None)
+                    if errs is not None and isinstance(errs, ast.Constant) and errs.value in ("replace", "ignore", "backslashreplace", "surrogateescape"):
+                        return AStr("str", v.pat, ("lit", v.length()), v.scen)  # a lossy handler never raises
                     if codec in ("utf8", "ascii") and "h" in v.pat:
                         # bytes >= 0x80 are arbitrary: some of them are not valid UTF-8 (none is ASCII)
                         raise Raised("UnicodeDecodeError", e)
